@@ -48,3 +48,69 @@ package pubsubmon
 //@   opts own
 //@   ensures [success-means-shut-down] err == nil ==> mon.shutdown
 //@   modifies *
+
+// ---- C15: loading a section = the defaults, then the section applied on top of them (a setting the section does
+// not carry gets its default, not whatever the object held before) ----
+//@ ghost var defaultsN int
+//@ func (cfg *Config) Default
+//@   opts trusted
+//@   counts defaultsN when true
+//@   modifies heap(Config)
+//@ func (cfg *Config) LoadJSON
+//@   property C15
+//@   requires cfg != nil
+//@   at_call Config.applyJSONConfig assert [defaults-first] defaultsN == old(defaultsN) + 1
+//@   modifies *
+
+// ---- C09: receiving and publishing ----
+// what is received is logged as received: LogMetric hands the metric it was given to the store
+//@ func (mon *Monitor) LogMetric
+//@   property C09
+//@   requires mon.metrics != nil && m != nil
+//@   at_call Store.Add assert [the-received-metric-is-stored] arg_m == m
+//@   ensures [never-fails] err == nil
+//@   ensures mon.metrics == old(mon.metrics)
+//@   modifies *
+
+// the receive loop logs the metric it just decoded (and nothing when decoding failed)
+//@ func (mon *Monitor) logFromPubsub
+//@   property C09
+//@   requires mon.metrics != nil
+//@   at_call Monitor.LogMetric assert [logs-what-was-decoded] lastDecodeErr == nil && arg_m != nil
+//@   loop 1 (for)
+//@     invariant mon.metrics != nil
+//@   modifies *
+
+//@ ghost var lastDecodeErr error
+//@ extern gocodec.Decoder.Decode(v)
+//@   records lastDecodeErr = err
+//@   modifies *v
+
+// "republishes each of its metrics": an invalid or already expired metric is not published; a valid one is published
+// exactly once, as encoded, and a failure to encode or publish is reported
+//@ ghost var publishN int
+//@ extern gocodec.Encoder.Encode(v)
+//@   modifies nothing
+//@ extern pubsub.Topic.Publish(ctx, data, opts)
+//@   counts publishN when true
+//@   modifies nothing
+// (assumed view of api.Metric.Discard: invalid or expired; its answer is recorded)
+//@ ghost var lastDiscard bool
+//@ extern api.Metric.Discard()
+//@   records lastDiscard = res
+//@   ensures !self.Valid ==> res
+//@   modifies nothing
+//@ func (mon *Monitor) PublishMetric
+//@   property C09
+//@   requires m != nil
+//@   ensures [discarded-is-not-published] lastDiscard ==> publishN == old(publishN) && err == nil
+//@   ensures [invalid-is-not-published] !old(m.Valid) ==> publishN == old(publishN)
+//@   ensures [success-means-published-once] err == nil && !lastDiscard ==> publishN == old(publishN) + 1
+//@   ensures [at-most-once] publishN <= old(publishN) + 1
+//@   modifies publishN, lastDiscard
+
+// the monitor's two loops are started with the monitor's own context, peerset provider and configured interval
+//@ func (mon *Monitor) run
+//@   property C09
+//@   at_call metrics.Checker.Watch assert [check-interval-from-the-configuration] interval == mon.config.CheckInterval && arg_ctx == mon.ctx
+//@   modifies *
